@@ -12,7 +12,7 @@ import (
 const c07Rule = "rapid-generated histories as in C01/C02/C04 and, one in six, as in C09 (re-bucketing to another bit size, refused opens) (all primaries, small file sizes, GC cycles with budgets, close/reopen through snapshot, rescan and unusable snapshot); after every Flush, every completed GC cycle, every reopen and every Close an independent reader of the file formats (sharing no code with the repository) checks every clause of the invariant: " +
 	"live bucket table = own rescan of the index files (= bucket snapshot after Close); each bucket -> complete, non-deleted, correctly tagged record in an existing file at or after the header's first file; entries sorted, pairwise prefix-free, distinct locations; each entry -> complete non-deleted primary record of the recorded size whose digest has the bucket bits and the stored prefix; no live location in .free/.free.gc; primary first-file <= referenced files; " +
 	"concurrent part: " + stressRuleText + " - here only the fsck of the directory after Close is judged (collectors off / index GC on the CID primary / both collectors with keys only added); " +
-	suspRuleText + " (here only the fsck clauses are judged); converted stores: legacy stores written by the encoder of C10 are opened (conversion) and the fsck runs right after the open, before anything is read, and again on the files after Close; " +
+	suspRuleText + " (here only the fsck clauses are judged); " + volCrashRuleText + " (here the independent fsck of the recovered image is the verdict); converted stores: legacy stores written by the encoder of C10 are opened (conversion) and the fsck runs right after the open, before anything is read, and again on the files after Close; " +
 	"crash part: workloads of the C03 generator run under the crash recorder; drawn crash images (captured and torn) are restored, opened, and the same invariant is checked on the recovered store before and after a flush; non-trivial = some checked image had >=2 index files or >=2 primary files, >=1 deleted-marked record and >=1 bucket holding >=2 entries; distinct = distinct canonical JSON of the case"
 
 type fsckAgg struct {
@@ -164,6 +164,19 @@ func TestC07(t *testing.T) {
 			ev.Record(sc, true, "suspended-call-crash")
 			if v != nil && strings.HasPrefix(v.Signature, "fsck|") {
 				ev.Report(v, sc)
+				t.Fatalf("replay: %v", v)
+			}
+		}
+		return
+	}
+	if envReplay != "" && bytes.Contains(readReplayRaw(envReplay).Case, []byte(`"vc_workers"`)) {
+		var c VCCase
+		readReplay(envReplay, &c)
+		for i := 0; i < 30; i++ {
+			_, v := runVolCrash(c, true)
+			ev.Record(c, true, "volume-crash")
+			if v != nil {
+				ev.Report(v, c)
 				t.Fatalf("replay: %v", v)
 			}
 		}
@@ -322,6 +335,10 @@ func TestC07(t *testing.T) {
 	// Crash images taken while a call is suspended between its sub-steps.
 	if !t.Failed() {
 		runSuspCampaign(t, ev, budget(3200, 6000), true, func(v *Violation) bool { return strings.HasPrefix(v.Signature, "fsck|") })
+	}
+	// Crash images taken right after a Flush call returned under load.
+	if !t.Failed() {
+		runVolCrashCampaign(t, ev, budget(160, 800), true)
 	}
 	ev.finish(t)
 }
